@@ -514,7 +514,7 @@ pub fn def_c03() -> CheckDef {
         info: |tier| CheckInfo {
             id: "C03",
             level: "model_checking",
-            rule: format!("Explicit-state BFS (depth {}) over request histories against one real Server (clone per state), five sub-alphabets (immutable, mutable, announce_peer, announce_signed_peer, request filter) of 9-25 actions each: token-yielding reads from 3 source addresses (2 IPs), writes with valid/oversize/wrong-hash/bad-signature/wrong-target/oversize-salt payloads, timestamps at 0/+-44/+-46/+45.9/-45.2 s, tokens fresh / issued to another IP / from another server / empty / one byte mutated / older, clock steps 1 s, 4m59s, 5m01s. Every transition goes independent encoder -> real decoder -> real Server::handle_request -> real encoder -> independent reader and is compared with a reference model (accepted-write stores + issued tokens). States = distinct (real server snapshot, clock, rng cursor, client tokens, model).", if tier.is_quick() { 6 } else { 8 }),
+            rule: format!("Explicit-state BFS (depth {}) over request histories against one real Server (clone per state), five sub-alphabets (immutable, mutable, announce_peer, announce_signed_peer, request filter) of 9-25 actions each: token-yielding reads from 3 source addresses (2 IPs), writes with valid/oversize/wrong-hash/bad-signature/wrong-target/oversize-salt payloads, timestamps at 0/+-44/+-46/+45.9/-45.2 s, tokens fresh / issued to another IP / from another server / empty / one byte mutated / older, clock steps 1 s, 4m59s, 5m01s. Every transition goes independent encoder -> real decoder -> real Server::handle_request -> real encoder -> independent reader and is compared with a reference model (accepted-write stores + issued tokens). States = distinct (real server snapshot, clock, rng cursor, client tokens, model). Added sub-alphabets: the same announcer announcing again (other port, implied port, newer / older timestamp), and one info hash with 24 announcers, plain and signed (replies are samples: 1..=20 distinct accepted ones; the 27th announcer overflows the capacity of 26).", if tier.is_quick() { 6 } else { 8 }),
             assumptions: vec![
                 "token freshness oracle: must accept up to 5 min after issue to the same IP; must reject tokens never issued to that IP; in between, either answer (refined in C15)".into(),
                 "store capacities are set to 8/4/4 instead of the defaults (same code path, smaller tables)".into(),
@@ -539,7 +539,7 @@ pub fn def_c04() -> CheckDef {
         info: |tier| CheckInfo {
             id: "C04",
             level: "model_checking",
-            rule: format!("Explicit-state BFS (depth {}, or until no new state is found) over put/get histories against one real Server with mutable-store capacity 1, 2 and 8: puts with seq in 1..4, two values, cas absent/matching/mismatching/arbitrary on an empty slot, two writers, two keys and a salted slot; gets without and with seq filter 0..4. Reference: BEP44 state machine (last accepted item per target, exact LRU); invariant on every transition: stored seq never decreases. Equal seq with a different value is left unspecified (either outcome accepted).", if tier.is_quick() { 6 } else { 12 }),
+            rule: format!("Explicit-state BFS (depth {}, or until no new state is found) over put/get histories against one real Server with mutable-store capacity 1, 2 and 8: puts with seq in 1..4, two values, cas absent/matching/mismatching/arbitrary on an empty slot, two writers, two keys and a salted slot; gets without and with seq filter 0..4. Reference: BEP44 state machine (last accepted item per target, exact LRU); invariant on every transition: stored seq never decreases. Equal seq with a different value is left unspecified (either outcome accepted). A valid write refused with 301/302 (e.g. cas on an empty slot) is reported here.", if tier.is_quick() { 6 } else { 12 }),
             assumptions: vec!["tokens are always fresh here (token rules are C03/C15)".into()],
         },
         shards: |_| 1,
@@ -560,7 +560,7 @@ pub fn def_c15() -> CheckDef {
         info: |tier| CheckInfo {
             id: "C15",
             level: "model_checking",
-            rule: format!("Explicit-state BFS (depth {}) over timelines against one real Server: token-yielding gets from IPs a, a' (one low bit away) and b; writes presenting the latest / the oldest remembered own token, another IP's token, a token of another server instance, empty, every single-byte mutation, 3- and 5-byte resizes; clock steps 2 s, 4m59s, 5m01s so that ages 0..15+ min arise with and without intermediate requests (rotation is lazy). Oracle: never-issued-to-this-IP => 203; same IP and age <= 5 min => accepted; requests in every 5-minute period and age > 10 min + largest gap => 203; otherwise either.", if tier.is_quick() { 6 } else { 8 }),
+            rule: format!("Explicit-state BFS (depth {}) over timelines against one real Server: token-yielding gets from IPs a, a' (one low bit away) and b; writes presenting the latest / the oldest remembered own token, another IP's token, a token of another server instance, empty, every single-byte mutation, 3- and 5-byte resizes; clock steps 2 s, 4m59s, 5m01s so that ages 0..15+ min arise with and without intermediate requests (rotation is lazy). Oracle: never-issued-to-this-IP => 203; same IP and age <= 5 min => accepted; requests in every 5-minute period and age > 10 min + largest gap => 203; otherwise either. Added: a token presented from each of the 32 addresses that differ from its owner's in exactly one bit.", if tier.is_quick() { 6 } else { 8 }),
             assumptions: vec!["the 2^32 token values are not enumerated; structure-preserving mutations only".into()],
         },
         shards: |_| 1,
